@@ -374,3 +374,62 @@ func VH_C17_refused() {
 	vhCheckReads("C17.refused.reopen", db2, rows)
 	vAssert("C17.refused.control", db2.Control() == nil)
 }
+
+// ---- several fields of the same struct type ----
+
+type vAddr struct {
+	City string `sod:"upper"`
+	Zip  string `sod:"unique"`
+}
+
+type vPerson struct {
+	Item
+	N    int64 `sod:"index"`
+	Home *vAddr
+	Work *vAddr
+	Alt  vAddr
+}
+
+// VH_C17_same_type_twice: a struct that reaches the same struct type through
+// several fields (two pointers and a value) has descriptors — and therefore
+// constraints, indexes and a stable schema — for every one of them: the
+// constraints of the second and third occurrence are enforced, a second
+// Create and a restart accept the collection (the shape did not change).
+func VH_C17_same_type_twice() {
+	root := vTempDir()
+	db := Open(root)
+	LowercaseNames = false
+	fds := FieldDescriptors(&vPerson{})
+	for _, p := range []string{"Home.City", "Home.Zip", "Work.City", "Work.Zip", "Alt.City", "Alt.Zip"} {
+		fd, ok := fds[p]
+		vAssert("C17.twice.descriptor_present", ok && fd.Path == p)
+	}
+	vAssert("C17.twice.create", db.Create(&vPerson{}, DefaultSchema) == nil)
+	z := vString("zip", vBound("L", 1))
+	a := &vPerson{N: 1, Home: &vAddr{"paris", "h1"}, Work: &vAddr{"lyon", "w1"}, Alt: vAddr{"nice", "a1"}}
+	vAssert("C17.twice.insert", db.InsertOrUpdate(a) == nil)
+	which := vChoice("which", 3)
+	b := &vPerson{N: 2, Home: &vAddr{"x", "h2"}, Work: &vAddr{"y", "w2"}, Alt: vAddr{"z", "a2"}}
+	own := []string{"h1", "w1", "a1"}[which]
+	switch which {
+	case 0:
+		b.Home.Zip = z
+	case 1:
+		b.Work.Zip = z
+	case 2:
+		b.Alt.Zip = z
+	}
+	if vChoice("reopen", 2) == 1 {
+		vAssert("C17.twice.close", db.Close() == nil)
+		db = Open(root)
+		vAssert("C17.twice.recreate", db.Create(&vPerson{}, DefaultSchema) == nil)
+	}
+	err := db.InsertOrUpdate(b)
+	vAssert("C17.twice.unique_on_every_occurrence", vIff(err != nil, z == own))
+	got, gerr := db.GetByUUID(&vPerson{}, a.UUID())
+	vAssert("C17.twice.get", gerr == nil)
+	if gerr == nil {
+		g := got.(*vPerson)
+		vAssert("C17.twice.upper_on_every_occurrence", g.Home != nil && g.Work != nil && g.Home.City == "PARIS" && g.Work.City == "LYON" && g.Alt.City == "NICE")
+	}
+}
